@@ -23,7 +23,8 @@ RULE = ("world = seeded tag collection text (0..8 packages with distinct names o
         "filter_tags[_copy] / choose_packages[_copy] / facet_collection / drop-handle on any "
         "live handle; every live handle is checked after every step; an evaluation is one "
         "run; distinct = distinct (handle, op) sequence hash; non-trivial = at least one "
-        "insert happened while two or more handles were live")
+        "insert happened while two or more handles were live"
+        '; later additions: re-read on a live handle (also with a filter that consults the same DB), one-shot iterators as selections, qwrite/qread, a derivation asked for again later in the history')
 REAL = ["debian.debtags.DB (read, insert, all derivations, all queries), parse_tags, "
         "read_tag_database_both_ways, reverse"]
 STUB = ["the input line stream handed to DB.read (simulator-owned list / iterator)"]
